@@ -41,11 +41,35 @@ def apply_edits(dst: str, edits) -> str:
     return ""
 
 
+def apply_patch(dst: str, patch_file: str) -> str:
+    r = subprocess.run(["patch", "-p1", "-s", "-f", "-i", patch_file], cwd=dst, capture_output=True, text=True)
+    return "" if r.returncode == 0 else "seeded patch no longer applies: %s" % (r.stdout + r.stderr)[-200:]
+
+
+def seeded_cases(pid: str):
+    """Confirmed seeded changes (from independent sub-agents) that this property's check is recorded to catch."""
+    out = []
+    sd = os.path.join(VERIF, "seeded")
+    if not os.path.isdir(sd):
+        return out
+    for d in sorted(os.listdir(sd)):
+        mp = os.path.join(sd, d, "meta.json")
+        pp = os.path.join(sd, d, "patch.diff")
+        if os.path.exists(mp) and os.path.exists(pp):
+            try:
+                meta = json.load(open(mp))
+            except Exception:
+                continue
+            if pid in (meta.get("checks_firing") or {}):
+                out.append({"name": "seeded/" + d, "kind": "mutant", "patch": pp, "edits": []})
+    return out
+
+
 def run_case(pid: str, case, root: str, tier: str):
     tmp = tempfile.mkdtemp(prefix="fcpverif-st-")
     try:
         make_copy(root, tmp)
-        err = apply_edits(tmp, case["edits"])
+        err = apply_patch(tmp, case["patch"]) if case.get("patch") else apply_edits(tmp, case["edits"])
         if err:
             return case, "stale", err
         env = dict(os.environ, VERIF_NO_EVIDENCE="1")
@@ -70,7 +94,7 @@ def selftest(pid: str, root: str = "/repo", tier: str = "quick", jobs: int = 16)
     p = os.path.join(HERE, "corpus", pid + ".json")
     if not os.path.exists(p):
         return {"mutants": 0, "twins": 0, "fired": 0, "silent": 0, "problems": []}
-    cases = json.load(open(p))
+    cases = json.load(open(p)) + seeded_cases(pid)
     res = {"mutants": 0, "twins": 0, "fired": 0, "silent": 0, "stale": 0, "problems": []}
     with ThreadPoolExecutor(max_workers=jobs) as ex:
         for case, verdict, msg in ex.map(lambda c: run_case(pid, c, root, tier), cases):
